@@ -99,6 +99,7 @@ TraceNext ==
             /\ AllEnded(open)
             /\ NoHole(claimed, sent)
             /\ (~pclosed /\ e.peerdone) => \A w \in okW : Delivered(recv, writes, w)
+            /\ (\A w \in DOMAIN writes : WriteAtomic(recv, w)) \/ PrintT(<<"NONATOMIC", l>>)   \* observation only
             /\ UNCHANGED <<writes, pred, okW, recv, sent, claimed, floor, maxEnd, open, pclosed>>
        [] OTHER ->
             UNCHANGED <<writes, pred, okW, recv, sent, claimed, floor, maxEnd, open, pclosed>>
